@@ -975,6 +975,25 @@ def search(ctx):
         for _ in range(ctx.n(4, 30)):
             i = rng.randrange(len(descs))
             add(check_split_msgs(fmt, descs[i:i + rng.randint(1, 6)]))
+    # split, adversarial content: frames whose identifier or data contain the serial start marker AA 55, CR/LF bytes,
+    # the byte values of the framing itself — the packets of such frames must be cut back exactly as well
+    impl = Impl()
+    for fmt, kind in (("ebyte", 0), ("usb", 1), ("yd", 2)):
+        for _ in range(ctx.n(6, 60)):
+            pkts = []
+            for _k in range(rng.randint(2, 6)):
+                n = rng.randint(2, 8)
+                data = bytearray(gen_data(rng, n))
+                if rng.random() < 0.7:
+                    j = rng.randrange(n - 1)
+                    data[j:j + 2] = rng.choice([b"\xaa\x55", b"\xaa\x55", b"\x55\xaa", b"\x0d\x0a", b"\xaa\xaa"])
+                src, dst = rng.choice([(0xAA, 0x55), (0x55, 0xAA), (0xAA, 0xAA), (rng.getrandbits(8), rng.getrandbits(8))])
+                pgn = rng.choice([59904, 0xAA00, 0x5500, 0x1AA00, 126208])       # addressed PGNs: dst is on the wire
+                _f, obs = impl.encode(kind, (pgn, src, dst, rng.getrandbits(3)), bytes(data))
+                if obs[0] == "ok":
+                    pkts += obs[1]
+            if pkts:
+                add(check_split(fmt, pkts))
     return out
 
 
